@@ -7,6 +7,7 @@ import (
 	"fmt"
 	"os"
 	"testing"
+	"time"
 
 	"verif.local/lib/evid"
 	"verif.local/lib/refs"
@@ -189,6 +190,7 @@ func TestVerif_C12(t *testing.T) {
 		}
 	}
 	decisions += vfC12Connection(rec)
+	decisions += vfC12AcrossLookups(rec)
 	rec.Eval(decisions)
 	rec.Sample(map[string]any{"modes": nModes, "relations": []string{"owner", "owner+group", "group", "aux-group", "other", "root", "root-is-owner", "root-is-owner-other-gid", "group-of-root-owned", "aux-group-of-root-owned", "other-of-root-owned"}, "masks": 64, "decisions": decisions})
 }
@@ -256,6 +258,81 @@ func vfC12Connection(rec *evid.Rec) int {
 				rec.Distinct(fmt.Sprintf("connection|%s|call=%d|granted=%#x", kind, i, res.Access))
 			}
 			p.close()
+			srv.Close()
+		}
+	}
+	return n
+}
+
+// vfC12AcrossLookups: the decision is a function of (mode, owner, group, identity, mask). With the
+// attribute cache on (so that the owner root assigned by SETATTR stays known), the same question is
+// asked before and after LOOKUPs / READDIRPLUS of the object that are served from the cache: nothing
+// changed the object, so the answer may not change - and it is the answer for the owner and group
+// root assigned (which differ numerically, so that a mix-up of the two shows).
+func vfC12AcrossLookups(rec *evid.Rec) int {
+	n := 0
+	type cr struct {
+		name     string
+		uid, gid uint32
+		aux      []uint32
+	}
+	ids := []cr{{"owner", 1000, 77, nil}, {"group", 3000, 2000, nil}, {"aux-group", 3001, 5, []uint32{6, 2000}}, {"uid-equals-file-gid", 2000, 9, nil}, {"gid-equals-file-uid", 9, 1000, nil}, {"other", 4000, 4000, nil}}
+	for _, mode := range []os.FileMode{0640, 0604, 0460, 0750} {
+		for _, kind := range []string{"f", "d"} {
+			fs := refs.New()
+			if kind == "f" {
+				fs.PlantFile("/o", []byte("x"), mode, 0, 0)
+			} else {
+				fs.PlantDir("/o", mode, 0, 0)
+			}
+			srv, err := vfNewSrv(fs, ExportOptions{AttrCacheTimeout: time.Hour, EnableDirCache: true, DirCacheTimeout: time.Hour})
+			if err != nil {
+				rec.Infra(err.Error())
+				return n
+			}
+			root0 := srv.client()
+			root, _ := root0.mnt("/")
+			l, _ := root0.lookup(root, "o")
+			if l == nil || l.Status != 0 {
+				rec.Infra("lookup")
+				srv.Close()
+				return n
+			}
+			oh := vfFH(l.FH)
+			if r, _ := root0.setattr(oh, xdrw.Sattr3{UID: xdrw.U32p(1000), GID: xdrw.U32p(2000)}); r == nil || r.Status != 0 {
+				rec.Infra("setattr owner")
+				srv.Close()
+				return n
+			}
+			first := map[string]uint32{}
+			for round := 0; round < 4; round++ {
+				for _, k := range ids {
+					c := srv.client()
+					c.Cred = xdrw.AuthSys(1, "h", k.uid, k.gid, k.aux)
+					res, err := c.access(oh, 0x3f)
+					if err != nil || res == nil || res.Status != 0 {
+						continue
+					}
+					n++
+					must, may := vfAccessRule(kind == "d", uint32(mode.Perm()), 1000, 2000, k.uid, k.gid, k.aux, false, 0x3f)
+					desc := fmt.Sprintf("mode=%04o kind=%s owner 1000:2000 assigned by root through SETATTR; identity %s (%d:%d aux %v); after %d rounds of cache-served LOOKUP/READDIRPLUS: granted=%#x want=%#x", mode.Perm(), kind, k.name, k.uid, k.gid, k.aux, round, res.Access, must)
+					if res.Access&^may != 0 {
+						rec.Violate("C12/across-lookups/over-grant/relation="+k.name, desc, desc)
+					} else if must&^res.Access != 0 {
+						rec.Violate("C12/across-lookups/under-grant/relation="+k.name, desc, desc)
+					}
+					if round == 0 {
+						first[k.name] = res.Access
+					} else if res.Access != first[k.name] {
+						rec.Violate("C12/same-question-different-answer", fmt.Sprintf("%s; the same ACCESS call answered %#x before those lookups", desc, first[k.name]), desc)
+					}
+					rec.Distinct(fmt.Sprintf("across-lookups|%s|%s|round=%d|granted=%#x", kind, k.name, round, res.Access))
+				}
+				// cache-served traffic that rebuilds the node from cached attributes
+				root0.lookup(root, "o")
+				root0.readdirplus(root, 0, 4096, 8192)
+				root0.getattr(oh)
+			}
 			srv.Close()
 		}
 	}
